@@ -51,12 +51,16 @@ func execW(rs string) string {
 	return writeOut(req)
 }
 
-func execRd(hexraw string) string {
+func execRd(hexraw, seg string) string {
 	raw, ok := vh.UnHex(hexraw)
 	if !ok {
 		return "bad-op"
 	}
-	br := bfe_bufio.NewReader(bytes.NewReader(raw))
+	sr, ok := c25lib.NewSegReader(raw, seg)
+	if !ok {
+		return "bad-op"
+	}
+	br := bfe_bufio.NewReader(sr)
 	req, err := bfe_http.ReadRequest(br, bfe_http.MaxUriSize)
 	if err != nil {
 		return "reject"
@@ -216,7 +220,9 @@ func exec(op string) string {
 	case len(f) == 3 && f[0] == "w":
 		return execW(f[2])
 	case len(f) == 2 && f[0] == "rd":
-		return execRd(f[1])
+		return execRd(f[1], "-")
+	case len(f) == 3 && f[0] == "rd":
+		return execRd(f[1], f[2])
 	case len(f) == 4 && (f[0] == "h2" || f[0] == "sp"):
 		return execFrame(f[0], f[1], f[2], f[3])
 	case len(f) == 2 && f[0] == "h2c":
@@ -279,16 +285,17 @@ type profile struct {
 	fe string
 	// which hostile material this frontend lets through, per component
 	methodBreak, methodCR, methodSP, methodCTL, methodEmpty, methodJunk bool
-	targetSP                                                bool
-	hostBreak, hostCR, hostCTL, hostEmpty                   bool
-	nameBreak, nameCR, nameJunk, nameSP, nameEmpty          bool
-	valueLF, valueCR, valueCTL, valueNUL                    bool
-	lowerNames                                              bool
+	targetSP                                                            bool
+	hostBreak, hostCR, hostCTL, hostEmpty                               bool
+	nameBreak, nameCR, nameJunk, nameSP, nameEmpty                      bool
+	valueLF, valueCR, valueCTL, valueNUL                                bool
+	lowerNames                                                          bool
 }
 
 var profH1 = profile{fe: "h1", methodCR: true, methodCTL: true, methodEmpty: true, methodJunk: true, hostCR: true, hostCTL: true, hostEmpty: true,
 	nameCR: true, nameJunk: true, nameSP: true, valueCR: true, valueCTL: true, valueNUL: true}
 var profH2 = profile{fe: "h2", methodSP: true, methodJunk: true, targetSP: true, hostEmpty: true}
+
 // after fix C25-spdy-validate: method, path, host and names must be free of CTL/SP; values unconstrained
 var profSpdy = profile{fe: "spdy", methodJunk: true, nameJunk: true,
 	valueLF: true, valueCR: true, valueCTL: true, lowerNames: true}
@@ -645,7 +652,29 @@ func genRaw(r *vh.Rand) string {
 	default:
 		b.WriteString(nl())
 	}
-	return "rd " + vh.Hex([]byte(b.String()))
+	raw := b.String()
+	seg := "-"
+	switch r.Intn(6) {
+	case 0:
+		seg = "1"
+	case 1, 2:
+		var cuts []string
+		last := 0
+		for i := 0; i < r.Range(1, 6); i++ {
+			last += r.Range(1, 1+len(raw)/3)
+			if last >= len(raw) {
+				break
+			}
+			cuts = append(cuts, itoa(last))
+		}
+		if len(cuts) > 0 {
+			seg = "c" + strings.Join(cuts, ",")
+			if r.Chance(1, 3) {
+				seg = "e" + seg
+			}
+		}
+	}
+	return "rd " + vh.Hex([]byte(raw)) + " " + seg
 }
 
 func itoa(n int) string {
@@ -706,6 +735,16 @@ func genFrame(r *vh.Rand, kind string) string {
 		if r.Chance(1, 20) {
 			k = strings.ToUpper(k[:len(k)/2]) + k[len(k)/2:]
 		}
+		switch r.Intn(12) {
+		case 0: // connection-specific fields (HTTP/2 8.1.2.2) and TE
+			k = r.Pick("connection", "keep-alive", "proxy-connection", "transfer-encoding", "upgrade", "te")
+		case 1: // a Host field next to :authority / :host (agreeing or not)
+			k = "host"
+		case 2:
+			if len(k) > 0 {
+				k = strings.ToUpper(k[:1]) + k[1:] // upper case is not allowed in HTTP/2 and SPDY names
+			}
+		}
 		if r.Chance(1, 8) { // an UNKNOWN pseudo header: plain, or carrying SP / CR LF / a whole field line
 			k = r.Pick(":a", ":foo", ":status", ":a: b\r\nx-injected", ":a b", ":a\r\nx: 1", ":\r\n", ":method2", ":x\x00")
 		}
@@ -717,10 +756,36 @@ func genFrame(r *vh.Rand, kind string) string {
 		if k == "content-length" {
 			v = r.Pick("3", "0", "x")
 		}
+		switch k {
+		case "te":
+			v = r.Pick("trailers", "gzip", "trailers, deflate", "Trailers")
+		case "host":
+			v = r.Pick(host, "other.example", "", "a\r\nEvil: 1")
+		case "connection":
+			v = r.Pick("close", "keep-alive", "x-foo", "upgrade")
+		case "transfer-encoding":
+			v = r.Pick("chunked", "gzip", "identity")
+		}
 		if k == "trailer" {
 			v = r.Pick("X-T", "a b", "x, y", "")
 		}
 		fs = append(fs, [2]string{k, v})
+	}
+	if r.Chance(1, 10) { // a pseudo header twice (same or different value)
+		d := fs[r.Intn(len(fs))]
+		if strings.HasPrefix(d[0], ":") {
+			if r.Bool() {
+				d[1] = r.Pick("GET", "/other", "http", "evil.example")
+			}
+			fs = append([][2]string{d}, fs...)
+		}
+	}
+	if r.Chance(1, 6) && kind == "h2" { // asterisk-form, absolute-form and authority-form targets
+		for i := range fs {
+			if fs[i][0] == ":path" {
+				fs[i][1] = r.Pick("*", "http://other.example/x?y=1", "https://a/", "a:443", "//a/b")
+			}
+		}
 	}
 	if r.Chance(1, 15) && len(fs) > 1 { // shuffle one pseudo header behind a regular one
 		fs[0], fs[len(fs)-1] = fs[len(fs)-1], fs[0]
@@ -846,6 +911,23 @@ func genConn(r *vh.Rand) string {
 		if r.Chance(1, 10) {
 			b = append(b, hpLiteral(r.Intn(3), 0, r.Pick(":a", ":a: b\r\nx-injected", ":status", ":foo bar"), "v")...)
 		}
+		if r.Chance(1, 10) { // a pseudo header twice
+			b = append(b, hpIndexed([]int{2, 3, 4, 5, 6, 7}[r.Intn(6)])...)
+		}
+		if r.Chance(1, 8) { // upper-case name, connection-specific field, TE, Host disagreeing with :authority
+			switch r.Intn(5) {
+			case 0:
+				b = append(b, hpLiteral(r.Intn(3), 0, "X-Upper", "1")...)
+			case 1:
+				b = append(b, hpLiteral(1, 0, r.Pick("connection", "keep-alive", "proxy-connection", "upgrade", "transfer-encoding"), r.Pick("close", "x", "chunked"))...)
+			case 2:
+				b = append(b, hpLiteral(1, 0, "te", r.Pick("trailers", "gzip", "trailers, deflate"))...)
+			case 3:
+				b = append(b, hpLiteral(r.Intn(3), 38, "", r.Pick("other.example", "example.com", ""))...) // static index 38 = host
+			case 4:
+				b = append(b, hpIndexed([]int{8, 9, 13, 14, 1}[r.Intn(5)])...)
+			}
+		}
 		nreg := r.Intn(4)
 		for k := 0; k < nreg; k++ {
 			switch r.Intn(7) {
@@ -881,6 +963,9 @@ func genConn(r *vh.Rand) string {
 			case 6: // static table entries
 				b = append(b, hpIndexed([]int{16, 17, 19, 23, 28, 31, 33, 38, 51, 58}[r.Intn(10)])...)
 			}
+		}
+		if r.Chance(1, 12) { // a pseudo header AFTER regular fields
+			b = append(b, hpIndexed([]int{2, 4, 7}[r.Intn(3)])...)
 		}
 		frames = append(frames, vh.Hex(b)+"."+r.Pick("1", "1", "0"))
 	}
